@@ -331,6 +331,33 @@ func (x *Exec) matchArg(env *Env, pa Expr, actual Val, heap map[string]Term) (Te
 				return TFalse, fmt.Sprintf("message of type %s where %s was declared", typeName(actual.Dyn), mp.Type)
 			}
 			ptr = *actual.Inner
+		case types.Identical(actual.Typ, t):
+			// struct value: compare fields by components
+			stt, ok := t.Underlying().(*types.Struct)
+			if !ok {
+				return TFalse, "pattern on non-struct value"
+			}
+			var out []Term
+			for _, fi := range mp.Fields {
+				found := false
+				for i := 0; i < stt.NumFields(); i++ {
+					if stt.Field(i).Name() == fi.Name {
+						found = true
+						lo, hi := fieldRange(stt, i)
+						want := env.eval(fi.X)
+						if len(want.C) != hi-lo {
+							return TFalse, "field " + fi.Name + ": component mismatch"
+						}
+						for k := range want.C {
+							out = append(out, Eq(actual.C[lo+k], want.C[k]))
+						}
+					}
+				}
+				if !found {
+					return TFalse, "no field " + fi.Name
+				}
+			}
+			return And(out...), ""
 		default:
 			pt, isPtr := types.Unalias(actual.Typ).Underlying().(*types.Pointer)
 			if !isPtr || !types.Identical(pt.Elem(), t) {
